@@ -685,12 +685,19 @@ func (service *serviceType) handleBuildRequest(id uint32, request map[string]int
 	}
 
 	if isContext {
+		// This is the context that "OnStart" below cancels. It's set once (while
+		// holding the mutex) and, unlike "activeBuild.ctx", it's never cleared.
+		// The "dispose" command clears "activeBuild.ctx" from another goroutine,
+		// possibly while a rebuild that was requested earlier is starting.
+		var ctxToCancel api.BuildContext
+
 		options.Plugins = append(options.Plugins, api.Plugin{
 			Name: "onEnd",
 			Setup: func(build api.PluginBuild) {
 				build.OnStart(func() (api.OnStartResult, error) {
 					activeBuild.mutex.Lock()
-					if currentWaitGroup := activeBuild.rebuildWaitGroup; currentWaitGroup != nil && activeBuild.didGetCancel {
+					ctx := ctxToCancel
+					if currentWaitGroup := activeBuild.rebuildWaitGroup; currentWaitGroup != nil && activeBuild.didGetCancel && ctx != nil {
 						// Cancel the current build now that the current build is active.
 						// This catches the case where JS does "rebuild()" then "cancel()"
 						// but Go's scheduler runs the original "ctx.Cancel()" goroutine
@@ -706,7 +713,7 @@ func (service *serviceType) handleBuildRequest(id uint32, request map[string]int
 						// some independent future build.
 						activeBuild.rebuildWaitGroup.Add(1)
 						go func() {
-							activeBuild.ctx.Cancel()
+							ctx.Cancel()
 
 							// Lock the mutex because "sync.WaitGroup" isn't thread-safe.
 							// But use the wait group that was active at the time the
@@ -774,6 +781,10 @@ func (service *serviceType) handleBuildRequest(id uint32, request map[string]int
 				},
 			})
 		}
+
+		activeBuild.mutex.Lock()
+		ctxToCancel = ctx
+		activeBuild.mutex.Unlock()
 
 		// Keep the build alive until "dispose" has been called
 		activeBuild.disposeWaitGroup.Add(1)
